@@ -268,6 +268,21 @@ def withPost (front post : Str) : Option Str :=
   else if k = 1 then (bibtexLen out).map fun n => out ++ (if n < 3 then ['~'] else [' '])
   else some (out ++ ['~'])
 
+/-- the tokens of a name part as they are shown: in full (`ff`), or each one abbreviated (`f`) -/
+def shownTokens (full : Bool) (sep : Option Str) (toks : List Str) : Option (List Str) :=
+  if full then some toks else toks.mapM (abbreviate sep)
+
+/-- the shown tokens joined: plainly by the explicit separator, or by the default rule with
+`~` / blank (in full) resp. `.~` / `. ` (abbreviated) -/
+def joinShown (full : Bool) (sep : Option Str) (ws : List Str) : Option Str :=
+  match sep with
+  | some s => some (joinWith s ws)
+  | none => if full then joinDefault ws ['~'] [' '] else joinDefault ws ['.', '~'] ['.', ' ']
+
+/-- the body of a part: what stands between its pre-text and its post-text -/
+def body (l : Letters) (sep : Option Str) (toks : List Str) : Option Str :=
+  (shownTokens l.full sep toks).bind (joinShown l.full sep)
+
 /-- one `{…}` part.  `none` = BibTeX's brace-nesting limit was hit in a name token. -/
 def formatPart (person : Person) (p : Part) : Option Str :=
   match p.letters with
@@ -275,15 +290,7 @@ def formatPart (person : Person) (p : Part) : Option Str :=
   | some l =>
     let toks := tokens person l.slot
     if toks = [] then some []          -- empty name part: nothing, not even pre/post text
-    else
-      let shown : Option (List Str) := if l.full then some toks else toks.mapM (abbreviate p.sep)
-      shown.bind fun ws =>
-        let body : Option Str :=
-          match p.sep with
-          | some s => some (joinWith s ws)                       -- explicit separator: plain join
-          | none => if l.full then joinDefault ws ['~'] [' ']
-                    else joinDefault ws ['.', '~'] ['.', ' ']
-        body.bind fun b => withPost (p.pre ++ b) p.post
+    else (body l p.sep toks).bind fun b => withPost (p.pre ++ b) p.post
 
 def formatPieces (person : Person) : List Piece → Option Str
   | [] => some []
